@@ -50,7 +50,8 @@ DECIDED = {
             "whitespace; containers inductively (array/object productions and value dispatch of the validating skipper, and the object "
             "production of both DOM drivers with their whole event stream, against an abstract nested recogniser E given as a symbolic "
             "table, for every E); the serde seq state machine and end_seq/end_map; raw-number capture; the deferred UTF-8 verdict "
-            "is reported by check_utf8_final. Finiteness on the table-driven float path: every result of parse_floating_normal_fast that "
+            "is reported by check_utf8_final; a root Value that the padded DOM parser only closes inside its padding is rejected as EOF "
+            "whatever end offset the parser reports (F13). Finiteness on the table-driven float path: every result of parse_floating_normal_fast that "
             "parse_float hands out is a finite normal double, for every significand and every exponent at both ends of the guard "
             "(thorough: all exponents) - SMT over the MIR."),
     "C03": ("The packed node metadata (kind, index-to-header, length survive Meta::pack_dom_node/unpack_dom_node for every len and every idx "
@@ -106,7 +107,9 @@ DECIDED = {
             "key/index) for every nested recogniser E; prefix_xor native == fallback."),
     "C12": ("One step of the lazy array driver and of the lazy object driver from every (first, position) == the iteration grammar for every "
             "element recogniser E (escape-free keys); the iterator latch: after an error (including the up-front invalid-UTF-8 error) or the "
-            "end every later call yields None (one step from an arbitrary state); the unchecked iterators' string skipper across block edges."),
+            "end every later call yields None (one step from an arbitrary state); the unchecked iterators' string skipper across block edges; "
+            "the unchecked iterators' number skipper stops exactly at the end of the number on every buffer <= 7 (F14: the span "
+            "used to include the blanks in front of the separator)."),
     "C13": ("Partial: skip_one returns the exact span and escape status (what LazyValue captures); OwnedLazyValue built from raw text of "
             "every JSON value class (From<LazyValue>, new) reports the same type/bool/null answers and never reaches unreachable!(); a failed "
             "as_array_mut/as_object_mut probe, and a get_mut with an index kind that cannot apply, leave a raw value untouched and never "
